@@ -1,7 +1,7 @@
 #!/usr/bin/env python3
 """C20: (a) all archive entry sequences up to a bound x {tar.gz, zip, tar.xz} through the real extract functions;
 (b) concurrent checkDownloadAndExtractLib requests under the controlled scheduler (file-system-call granularity)."""
-import argparse, json, os, sys
+import argparse, json, os, sys, subprocess
 sys.path.insert(0, "/verif/lib")
 from common import *
 HERE = os.path.dirname(os.path.abspath(__file__))
@@ -9,7 +9,12 @@ ap = argparse.ArgumentParser()
 ap.add_argument("--id", default="C20"); ap.add_argument("--tier", default=os.environ.get("VERIF_TIER", "quick")); ap.add_argument("--replay")
 a = ap.parse_args()
 thorough = a.tier == "thorough"
-rep = Report("C20", a.tier, "exploration")
+from schedrun import build_explorer
+FETCHX = os.path.join(BUILD, "sched", "fetchexplore")
+if a.replay and '"choices"' in open(a.replay).read():
+    build_explorer()
+    sys.exit(subprocess.run([FETCHX, "-replay", a.replay], env=dict(os.environ, GOMAXPROCS="1")).returncode)
+rep = Report("C20", a.tier, "model_checking")
 work = workdir("C20")
 out = os.path.join(work, "arch.json")
 if os.path.exists(out): os.remove(out)
@@ -31,7 +36,57 @@ rep.coverage.update(evaluations=ev, distinct_nontrivial=nt, exhaustive=exh, samp
     rule="all sequences of <=2 (thorough 3) entries from a pool of 20 (plain, nested, './', '..' at several depths, sibling-prefix escapes, absolute, "
          "dir entries, duplicates, file/dir clashes, symlink then file through it, unicode/space) in tar.gz, zip and tar.xz; each extracted by the real function "
          "into a fresh sandbox with canaries; non-trivial = distinct archives that are either escaping or well-formed (both oracles exercised)")
-rep.assumptions += ["well-formed = clean relative names, files and directories only, no path used as both; a later entry of the same name replaces the earlier",
+
+# ---- (b) concurrent requests: the real fetch.go under the controlled scheduler
+# (n, sub, entry, small, preempt, env, shards)
+QUICK = [(2, "", "lib", False, 2, 1, 1), (2, "top", "lib", False, 2, 1, 1), (2, "", "wasi", False, 2, 1, 1), (3, "", "lib", False, 2, 1, 16),
+         (3, "", "wasi", True, 1, 1, 1), (4, "", "lib", True, 1, 1, 1)]
+THOROUGH = [(2, "", "lib", False, 3, 2, 4), (2, "top", "lib", False, 3, 2, 4), (2, "", "wasi", False, 3, 2, 4), (3, "", "lib", False, 2, 2, 16),
+            (3, "", "lib", True, 3, 1, 32), (3, "top", "wasi", True, 2, 1, 8), (4, "", "lib", True, 2, 1, 16)]
+conc = {"configs": {}, "execs": 0, "points": 0}
+try:
+    build_explorer()
+    jobs = []
+    cw = workdir("C20", "conc")
+    scratch = "/dev/shm" if os.path.isdir("/dev/shm") and os.access("/dev/shm", os.W_OK) else cw
+    for ci, (n, sub, entry, small, pre, env, shards) in enumerate(THOROUGH if thorough else QUICK):
+        for sh in range(shards):
+            o = os.path.join(cw, "c%d_%d.json" % (ci, sh))
+            if os.path.exists(o): os.remove(o)
+            cmd = [FETCHX, "-n", str(n), "-sub", sub, "-entry", entry, "-preempt", str(pre), "-env", str(env), "-faults", "-shard", str(sh), "-nshards", str(shards),
+                   "-budget", "6000" if thorough else "1200", "-scratch", scratch, "-out", o] + (["-small"] if small else [])
+            jobs.append((ci, sh, o, cmd))
+    def runj(j):
+        return j, subprocess.run(j[3], env=dict(os.environ, GOMAXPROCS="1"), capture_output=True, text=True)
+    for (ci, sh, o, cmd), r in pmap(runj, jobs, workers=NCPU):
+        cfg = conc["configs"].setdefault("c%d" % ci, {"execs": 0, "points": 0, "outcomes": {}, "timed_out": False, "max_choice_depth": 0})
+        if r.returncode != 0 or not os.path.exists(o):
+            rep.violation("harness:fetch:c%d" % ci, "explorer shard %d crashed:\n%s" % (sh, (r.stderr or r.stdout)[-1500:])); exh = False
+            continue
+        d = json.load(open(o))
+        cfg["scenario"], cfg["bounds"] = d["scenario"], d["bounds"]
+        cfg["execs"] += d["execs"]; cfg["points"] += d["points"]; cfg["timed_out"] |= d["timed_out"] or d["capped"]
+        cfg["max_choice_depth"] = max(cfg["max_choice_depth"], d["max_choice_depth"])
+        for k, v in d["outcomes"].items():
+            cfg["outcomes"][k] = cfg["outcomes"].get(k, 0) + v
+        for v in d["violations"] or []:
+            rep.violation(v["key"], v["what"], v)
+    for c in conc["configs"].values():
+        conc["execs"] += c["execs"]; conc["points"] += c["points"]
+        if c["timed_out"]: exh = False
+except BuildError as e:
+    rep.violation("harness:fetch:build", str(e)); exh = False
+rep.coverage.update(schedules=conc["execs"], scheduling_points=conc["points"], states=conc["points"], transitions=conc["points"],
+    traces_validated_against_impl=conc["execs"], exhaustive=exh, concurrent_requests=conc["configs"],
+    concurrency_rule="n concurrent requests (checkDownloadAndExtractLib with and without an internal directory, checkDownloadAndExtractWasiSDK) for one destination; "
+        "fetch.go is the working-tree file with only its os/syscall/net/http/time import paths redirected; every os call, flock, close and http.Get is a scheduling point on the "
+        "real file system; flock is one scheduler mutex per inode owned by the open description (dropped on Close); the environment may fail a download (connection error, "
+        "body cut half way, status 500) within the env bound; all schedules within the preemption bound; oracle at every point: if the destination exists it holds every "
+        "archived file with exactly its bytes, a request that returned success implies the destination exists; at the end: no deadlock/livelock, with no failed download "
+        "every request succeeds")
+rep.assumptions += ["concurrency: requests modelled as threads of one process (fetch.go shares no in-process state; flock conflicts between open descriptions either way)",
+                    "rename/mkdir/open are atomic file-system steps; crash points are not explored",
+                    "well-formed = clean relative names, files and directories only, no path used as both; a later entry of the same name replaces the earlier",
                     "root entries '.'/'./' are outside the well-formed set (tar.gz rejects them with an error; not claimed either way)",
                     "tar.xz goes through the system's GNU tar 1.34"]
 rep.finish()
